@@ -1199,21 +1199,72 @@ func (te *TemplateEngine) cloneRun(source *Run) Run {
 
 	// 复制图像（如果有）
 	if source.Drawing != nil {
-		// 暂时保持简单复制，图像的深度复制比较复杂
-		newRun.Drawing = source.Drawing
+		// 深度复制绘图元素：渲染得到的文档不能与模板的基础文档（以及其他渲染结果）共享同一个对象，
+		// 否则修改其中一个文档里的图片会改变其他文档
+		newRun.Drawing = deepCopyValue(reflect.ValueOf(source.Drawing)).Interface().(*DrawingElement)
 	}
 
 	// 复制域字符（如果有）
 	if source.FieldChar != nil {
-		newRun.FieldChar = source.FieldChar
+		fieldChar := *source.FieldChar
+		newRun.FieldChar = &fieldChar
 	}
 
 	// 复制指令文本（如果有）
 	if source.InstrText != nil {
-		newRun.InstrText = source.InstrText
+		instrText := *source.InstrText
+		newRun.InstrText = &instrText
 	}
 
 	return newRun
+}
+
+// deepCopyValue 通过反射深度复制一个值（指针、结构体、切片、映射、接口逐层复制）
+func deepCopyValue(v reflect.Value) reflect.Value {
+	switch v.Kind() {
+	case reflect.Ptr:
+		if v.IsNil() {
+			return v
+		}
+		c := reflect.New(v.Type().Elem())
+		c.Elem().Set(deepCopyValue(v.Elem()))
+		return c
+	case reflect.Interface:
+		if v.IsNil() {
+			return v
+		}
+		c := reflect.New(v.Type()).Elem()
+		c.Set(deepCopyValue(v.Elem()))
+		return c
+	case reflect.Struct:
+		c := reflect.New(v.Type()).Elem()
+		c.Set(v)
+		for i := 0; i < v.NumField(); i++ {
+			if c.Field(i).CanSet() {
+				c.Field(i).Set(deepCopyValue(v.Field(i)))
+			}
+		}
+		return c
+	case reflect.Slice:
+		if v.IsNil() {
+			return v
+		}
+		c := reflect.MakeSlice(v.Type(), v.Len(), v.Len())
+		for i := 0; i < v.Len(); i++ {
+			c.Index(i).Set(deepCopyValue(v.Index(i)))
+		}
+		return c
+	case reflect.Map:
+		if v.IsNil() {
+			return v
+		}
+		c := reflect.MakeMapWithSize(v.Type(), v.Len())
+		for _, k := range v.MapKeys() {
+			c.SetMapIndex(k, deepCopyValue(v.MapIndex(k)))
+		}
+		return c
+	}
+	return v
 }
 
 // cloneRunFormat 只复制Run的格式（属性和xml:space），不含文本和非文本内容，
